@@ -4,6 +4,7 @@ import (
 	"fmt"
 	"math/rand"
 	"os"
+	"sync"
 
 	"verif/harness/vk"
 )
@@ -303,17 +304,33 @@ func (g *gen) do(o Op) error {
 
 // one case: nOps operations; rollback = include one insert rejected by the tree while unflushed
 // changes exist (the known rollback defect), near the end
-func genCase(r *vk.Run, nOps int, profile string) error {
-	rng := r.Rng
+func genCase(seed int64, nOps int, profile string) (res *caseResult, err error) {
+	rng := rand.New(rand.NewSource(seed))
 	cfg := randCfg(rng)
 	if profile == "deep" {
 		cfg.MaxNode = requiredNodeSize(cfg.MaxKey, cfg.MaxVal) + rng.Intn(3)
 	}
-	x, err := newRunner(r, cfg)
+	x, err := newRunner(cfg)
 	if err != nil {
-		return err
+		return nil, err
 	}
 	defer x.cleanup()
+	defer func() {
+		// a Go panic while driving the tree (in the implementation or on an impossible output)
+		// is a violation with the operations recorded so far as its replay
+		if p := recover(); p != nil {
+			x.viol = append(x.viol, fmt.Sprintf("panic while executing op#%d: %v", len(x.recs), p))
+			for _, sn := range x.snaps {
+				sn.pend = nil
+			}
+			for i := range x.recs {
+				if x.recs[i] == "" {
+					x.recs[i] = "OSync"
+				}
+			}
+			res, err = x.result(profile+"/panic"), nil
+		}
+	}()
 	g := &gen{rng: rng, cfg: cfg, x: x, nextID: 1}
 	g.alpha = pick(rng, []byte("ab"), []byte("abc"), []byte{0x00, 0x61, 0xff}, []byte{0x61, 0x62, 0xfe, 0xff}, []byte("abcdefgh"))
 	advCase := profile == "adversarial"
@@ -325,12 +342,12 @@ func genCase(r *vk.Run, nOps int, profile string) error {
 		if i == rollbackAt {
 			// make sure something is unflushed, then a batch the tree itself rejects
 			if err := g.do(g.insertOp(false)); err != nil {
-				return err
+				return nil, err
 			}
 			cur := g.curTs()
 			k := hs(g.key())
 			if err := g.do(Op{Kind: "insert", Kvts: []KVT{{K: k, V: hs(g.val()), T: cur + 3}, {K: k, V: hs(g.val()), T: cur + 2}}}); err != nil {
-				return err
+				return nil, err
 			}
 			continue
 		}
@@ -345,7 +362,7 @@ func genCase(r *vk.Run, nOps int, profile string) error {
 				// profile it is issued right after a flush, when nothing can be rolled back
 				if n := len(o.Kvts); n >= 2 && o.Kvts[n-1].T != 0 && o.Kvts[n-1].T < o.Kvts[n-2].T && o.Kvts[n-1].K == o.Kvts[n-2].K {
 					if err := g.do(Op{Kind: "flush", Pct: 0, Synced: false}); err != nil {
-						return err
+						return nil, err
 					}
 				}
 			}
@@ -360,7 +377,7 @@ func genCase(r *vk.Run, nOps int, profile string) error {
 			o = Op{Kind: "compact"}
 		case p < 49:
 			if err := g.closeAllSnaps(); err != nil {
-				return err
+				return nil, err
 			}
 			o = Op{Kind: "reopen"}
 		case p < 57:
@@ -381,31 +398,38 @@ func genCase(r *vk.Run, nOps int, profile string) error {
 			o = g.queryOp()
 		}
 		if err := g.do(o); err != nil {
-			return err
+			return nil, err
 		}
 	}
 	// final observations: the whole content through a snapshot reader, both directions
 	if err := g.do(Op{Kind: "snap", Snap: g.nextID, Ts: 0}); err != nil {
-		return err
+		return nil, err
 	}
 	if s := x.snaps[g.nextID]; s != nil {
 		for _, desc := range []bool{false, true} {
 			if err := g.do(Op{Kind: "read", Snap: g.nextID, Desc: desc, Mode: pick(rng, "latest", "history")}); err != nil {
-				return err
+				return nil, err
 			}
 		}
 	}
 	if err := g.closeAllSnaps(); err != nil {
-		return err
+		return nil, err
 	}
-	x.emit(profile)
-	return nil
+	return x.result(profile), nil
 }
 
 // Gen: n = number of cases.  Profiles: mixed (default), deep (minimal node size), adversarial
 // (malformed batches, refused timestamps), rollback (one tree-level rejection with unflushed data).
 func Gen(r *vk.Run, n int) error {
 	long := os.Getenv("VERIF_TIER") == "thorough"
+	type job struct {
+		seed    int64
+		nOps    int
+		profile string
+		res     *caseResult
+		err     error
+	}
+	jobs := make([]*job, n)
 	for i := 0; i < n; i++ {
 		profile := "mixed"
 		switch {
@@ -416,13 +440,35 @@ func Gen(r *vk.Run, n int) error {
 		case i%25 == 9:
 			profile = "rollback"
 		}
-		nOps := 12 + r.Rng.Intn(40)
+		nOps := 8 + r.Rng.Intn(30)
 		if long {
-			nOps += r.Rng.Intn(120)
+			nOps += r.Rng.Intn(130)
 		}
-		if err := genCase(r, nOps, profile); err != nil {
-			return fmt.Errorf("case %d: %v", i, err)
+		jobs[i] = &job{seed: r.Rng.Int63(), nOps: nOps, profile: profile}
+	}
+	// the cases are independent (own temp dir, own PRNG derived from the run's PRNG): run them on
+	// a few workers, hand them to the recorder in generation order
+	work := make(chan *job)
+	var wg sync.WaitGroup
+	for w := 0; w < 8; w++ {
+		wg.Add(1)
+		go func() {
+			defer wg.Done()
+			for j := range work {
+				j.res, j.err = genCase(j.seed, j.nOps, j.profile)
+			}
+		}()
+	}
+	for _, j := range jobs {
+		work <- j
+	}
+	close(work)
+	wg.Wait()
+	for i, j := range jobs {
+		if j.err != nil {
+			return fmt.Errorf("case %d: %v", i, j.err)
 		}
+		j.res.emit(r)
 	}
 	return nil
 }
